@@ -2216,6 +2216,9 @@ class SSHTunTapChannel(SSHForwardChannel[bytes]):
         """Strip off address family on incoming packets in TUN mode"""
 
         if self._mode == SSH_TUN_MODE_POINTTOPOINT:
+            # The address family isn't delivered, but the peer counted
+            # it against the receive window
+            self._recv_window -= len(data[:4])
             data = data[4:]
 
         super()._accept_data(data, datatype)
